@@ -617,6 +617,16 @@ func patTerm(e ast.Expr) *Term {
 		return mk("op", x.Op.String(), patTerm(x.X), patTerm(x.Y))
 	case *ast.IndexExpr:
 		return mk("index", "", patTerm(x.X), patTerm(x.Index))
+	case *ast.SliceExpr:
+		a := []*Term{patTerm(x.X)}
+		for _, y := range []ast.Expr{x.Low, x.High, x.Max} {
+			if y != nil {
+				a = append(a, patTerm(y))
+			} else {
+				a = append(a, mk("const", ""))
+			}
+		}
+		return mk("slice", "", a...)
 	case *ast.TypeAssertExpr:
 		return mk("assert", types.ExprString(x.Type), patTerm(x.X))
 	case *ast.CompositeLit:
